@@ -4,8 +4,11 @@ Helper lemmas for Props/C10 (failures are exceptions and change nothing), on top
 Lemmas/GraphForward.lean: the evolution of the fault schedule `State.failIn` over a request
 (`FailEvol`, `forward_failEvol`), the consistency invariant `Consistent` (every stored value is
 what its operator computes from the current values of its arguments), agreement of a failed
-attempt plus retry with a run that never failed (`Ext.agree_sub`, `retry_clean`), and the forward
-phase of `backward`.  Core Lean only.
+attempt plus retry with a run that never failed — set-based for deterministic operators
+(`Ext.agree_sub`, `retry_clean`, `retry_same_set`) and exact, random sources included
+(`State.clr`, `evalSelf_clr`, `Resumes`, `forwardRec_resume`, `forward_resume`) — the forward phase of
+`backward` (`backward_fwd_error`, `backward_memo`, `backward_fwd_ok`) and
+`forward_error_unevaluated`.  Core Lean only.
 -/
 namespace Primitiv.Graph
 variable {τ : Type}
@@ -199,7 +202,7 @@ theorem forwardRec_failEvol (T : TOps τ) (fuel : Nat) :
     obtain ⟨n, hn⟩ : ∃ n, o.rets[a.vid]? = some n := ⟨_, List.getElem?_eq_getElem hvid⟩
     have kok := w.kind_ok _ o ho
     by_cases hnp : o.kind.isParam = true
-    · rw [forwardRec_succ]
+    · rw [forwardRec_unfold]
       simp only [ho]
       cases hk : o.kind with
       | rnd => simp [hk, Kind.isParam] at hnp
@@ -298,7 +301,7 @@ theorem Consistent.push {s : State τ} (w : WF s) (c : Consistent s) {o : OpInfo
     apply mapM_congr
     intro b hb
     exact State.valueOf?_congr (s := s) (s' := s.push o)
-      (push_getElem?_lt (validAddr_lt (w.args_lt k o' h b hb).2)) rfl
+      (push_getElem?_lt (validAddr_oid_lt (w.args_lt k o' h b hb).2)) rfl
   · exact absurd (evaluated_lt hk) (Nat.lt_irrefl _)
 
 theorem Consistent.of_ops_eq {s s' : State τ} (c : Consistent s) (h1 : s'.ops = s.ops)
@@ -462,7 +465,7 @@ theorem retry_clean (T : TOps τ) {s : State τ} (w : WF s) {a : Addr} (hv : s.v
     intro j hj
     have := List.countP_eq_zero.1 hcount j hj
     simpa using this
-  have hlc : ∀ j, Anc { s with failIn := none } j a.oid → ¬ ({ s with failIn := none } : State τ).evaluated j →
+  have hlc : ∀ j, AncOf { s with failIn := none } j a.oid → ¬ ({ s with failIn := none } : State τ).evaluated j →
       ({ s with failIn := none } : State τ).isParam j = false → j ∈ lc := by
     intro j h1 h2 h3
     rcases (ec.evaluated j).1 (hdonec a (List.mem_singleton_self a) j h1 h3) with h | h
@@ -497,7 +500,7 @@ theorem retry_clean (T : TOps τ) {s : State τ} (w : WF s) {a : Addr} (hv : s.v
       exact .inr ⟨o, o2, by rw [e1'.same j hj1]; exact h1, h2, st, hr, ec.loc j hjc⟩
   have hv1 : ({ (forward T { s with failIn := some k } a).1 with failIn := none } : State τ).validAddr a = true := by
     rw [e1'.validAddr]; exact hv
-  have hancs : ∀ j, Anc { (forward T { s with failIn := some k } a).1 with failIn := none } j a.oid →
+  have hancs : ∀ j, AncOf { (forward T { s with failIn := some k } a).1 with failIn := none } j a.oid →
       ({ (forward T { s with failIn := some k } a).1 with failIn := none } : State τ).isParam j = false →
       (forward T { s with failIn := none } a).1.evaluated j := by
     intro j h1 h2
@@ -698,7 +701,7 @@ theorem forward_error_unevaluated (T : TOps τ) {s : State τ} (w : WF s) {a : A
   obtain ⟨n, hn⟩ : ∃ n, o.rets[a.vid]? = some n := ⟨_, List.getElem?_eq_getElem hvid⟩
   have kok := w.kind_ok _ o ho
   by_cases hnp : o.kind.isParam = true
-  · rw [forwardRec_succ] at he
+  · rw [forwardRec_unfold] at he
     simp only [ho] at he
     cases hk : o.kind with
     | rnd => simp [hk, Kind.isParam] at hnp
@@ -782,7 +785,7 @@ theorem retry_same_set (T : TOps τ) {s : State τ} (w : WF s) {a : Addr} (hv : 
     constructor
     · intro hj
       have hf := e2.fresh hj
-      have hanc : Anc { s with failIn := none } j a.oid := by
+      have hanc : AncOf { s with failIn := none } j a.oid := by
         rcases List.mem_append.1 hj with h | h
         · exact hanc1 j h
         · obtain ⟨b, hb, hab⟩ := p2.anc j h
@@ -904,7 +907,7 @@ theorem forwardRec_stable (T : TOps τ) {fuel : Nat} {s : State τ} {b : Addr} {
   | zero => omega
   | succ fuel =>
     obtain ⟨o, ho, hvid⟩ := validAddr_iff.1 hv
-    rw [forwardRec_succ]
+    rw [forwardRec_unfold]
     unfold State.valueOf? at hx
     simp only [ho] at hx ⊢
     cases hk : o.kind with
@@ -1063,7 +1066,7 @@ theorem forwardRec_resume (T : TOps τ) (fuel : Nat) :
     have hoc : tf.clr.ops[a.oid]? = some o := ho
     have kok := w.kind_ok _ o ho
     by_cases hnp : o.kind.isParam = true
-    · rw [forwardRec_succ] at hclean ⊢
+    · rw [forwardRec_unfold] at hclean ⊢
       simp only [hoc] at hclean
       simp only [ho]
       cases hk : o.kind with
